@@ -73,7 +73,13 @@ def build(n, edges, ctxs, enum_leaves, nfiles, tag, external=False, emit=()):
             src = rg.enum_src(names[i], [("A",), ("B",)], derive_style=rg.DERIVE_STYLES[(i + n) % len(rg.DERIVE_STYLES)])
         else:
             ext = [("ext_id", "Uuid"), ("stamps", "Vec<DateTime<Utc>>")] if external and i % 2 == 0 else []
-            src = rg.struct_src(names[i], [("id", "i32")] + ext + [("f%d" % k, rg.rust(ty)) for k, (j, ty) in enumerate(out_edges[i])],
+            def vattrs(k_, ty_):
+                # a third of the structs validate their fields: `length` on the collections that carry an edge, `range` on the id
+                if (i + n) % 3 != 0:
+                    return []
+                return ['#[validate(length(min = 1, max = 50, message = "size"))]'] if ty_[0] in ("vec", "hset", "bset", "hmap", "bmap") else ['#[validate(nested)]'] if k_ % 2 else []
+            src = rg.struct_src(names[i], [("id", "i32", ['#[validate(range(min = 0))]'] if (i + n) % 3 == 0 else [])] + ext + [("f%d" % k, rg.rust(ty), vattrs(k, ty)) for k, (j, ty) in enumerate(out_edges[i])],
+                                derives="Serialize, Deserialize, Validate" if (i + n) % 3 == 0 else "Serialize, Deserialize",
                                 derive_style=rg.DERIVE_STYLES[(i + len(edges)) % len(rg.DERIVE_STYLES)])
         body.setdefault("m%d.rs" % (i % nfiles), []).append(src)
     cmd = rg.command_src("root_%s" % tag.lower(), [("p%d" % i, names[i]) for i in range(n)], "Vec<%s>" % names[0])
